@@ -54,6 +54,7 @@ def expected_type(sp, position):
     return None
 
 
+CONST_CONTAINERS = ['const GSList *', 'const GHashTable *', 'const GArray *', 'const GPtrArray *', 'const GByteArray *']
 PARAM_SPELLINGS = ([s for s in BASIC_SPELLINGS] + [s + ' *' for s in BASIC_SPELLINGS if s not in ('char', 'gchar')] +
                    ['const ' + s + ' *' for s in ('gint', 'guint8', 'double', 'gsize')] +
                    ['char *', 'gchar *', 'const char *', 'const gchar *', 'gchar **', 'const gchar **', 'char **',
@@ -61,9 +62,9 @@ PARAM_SPELLINGS = ([s for s in BASIC_SPELLINGS] + [s + ' *' for s in BASIC_SPELL
                     'FooRec *', 'const FooRec *', 'FooUni *', 'FooOpaque *', 'FooMode', 'FooFlags', 'FooAlias', 'FooByte', 'FooRec **',
                     'GObject *', 'GCancellable *', 'GVariant *', 'GClosure *', 'GList *', 'GSList *', 'GHashTable *', 'GArray *',
                     'GPtrArray *', 'GByteArray *', 'const GList *', 'GValue *', 'const GValue *', 'GBytes *', 'FooCallback',
-                    'long long', 'unsigned long long', 'long double'])
+                    'long long', 'unsigned long long', 'long double'] + CONST_CONTAINERS + ['const FooUni *', 'const FooOpaque *', 'const GObject *', 'const GVariant *'])
 RETURN_SPELLINGS = ['void'] + [s for s in PARAM_SPELLINGS if s not in ('FooCallback',)]
-FIELD_SPELLINGS = [s for s in PARAM_SPELLINGS if s not in ('FooCallback', 'const void *') and not s.startswith('const GList')]
+FIELD_SPELLINGS = [s for s in PARAM_SPELLINGS if s not in ('FooCallback', 'const void *') and not s.startswith('const GList') and s not in CONST_CONTAINERS]
 
 
 def gen_library(seed, idx):
